@@ -6,7 +6,7 @@ here=$(cd "$(dirname "$0")/.." && pwd)
 pat=${1:-C}
 out=${SWEEP_OUT:-/tmp/sweep.$$}
 mkdir -p "$out"
-declare -A cross=( [C04-m3]=C01 [C13-m2]=C09 [C04-m2]=C17 [C06-m5]=C01 [C06-m6]=C11 [C17-m6]=C11 [C02-m6]=C11 [C02-m5]=C09 [C04-m4]=C17 [C09-m4]=C10 [C19-m9]=C10 [C02-m9]=C11 [C04-m7]=C17 [C04-m9]=C01 )
+declare -A cross=( [C04-m3]=C01 [C13-m2]=C09 [C04-m2]=C17 [C06-m5]=C01 [C06-m6]=C11 [C17-m6]=C11 [C02-m6]=C11 [C02-m5]=C09 [C04-m4]=C17 [C09-m4]=C10 [C19-m9]=C10 [C02-m9]=C11 [C04-m7]=C17 [C04-m9]=C01 [C18-m9]=C06 )
 one() {
   d=$1; s=$(basename $d); prop=${s%%-*}
   p=$d/patch.diff; [ -f $d/patch_rebased_on_fixed_tree.diff ] && p=$d/patch_rebased_on_fixed_tree.diff
